@@ -640,4 +640,634 @@ theorem foldT_filter (env : Env) (t : Target) (v : Option Val) (cs : List Cmd) :
     · simp only [foldT, List.foldl_cons, h, if_false, List.filter_cons, decide_false] at ih ⊢
       exact ih _
 
+
+-- ------------------------------------------------- diff seen entry by entry --
+
+theorem mem_insertByKey {ν : Type} (x y : Nat × ν) (l : List (Nat × ν)) :
+    y ∈ insertByKey x l ↔ y = x ∨ y ∈ l := by
+  induction l with
+  | nil => simp [insertByKey]
+  | cons z t ih =>
+    simp only [insertByKey]
+    split
+    · simp
+    · simp only [List.mem_cons, ih]; constructor <;> (intro h; rcases h with h | h | h <;> simp [h])
+
+theorem mem_sortByKey {ν : Type} (y : Nat × ν) (l : List (Nat × ν)) : y ∈ sortByKey l ↔ y ∈ l := by
+  induction l with
+  | nil => simp [sortByKey]
+  | cons z t ih => simp only [sortByKey, List.foldr_cons] at ih ⊢; rw [mem_insertByKey, ih]; simp
+
+theorem sorted_insertByKey {ν : Type} (x : Nat × ν) (l : List (Nat × ν))
+    (h : l.Pairwise (fun a b => a.1 ≤ b.1)) : (insertByKey x l).Pairwise (fun a b => a.1 ≤ b.1) := by
+  induction l with
+  | nil => simp [insertByKey]
+  | cons z t ih =>
+    simp only [insertByKey]
+    have hz := List.pairwise_cons.mp h
+    split
+    · next hle =>
+      refine List.pairwise_cons.mpr ⟨?_, h⟩
+      intro a ha
+      rcases List.mem_cons.mp ha with rfl | ha
+      · exact hle
+      · exact Nat.le_trans hle (hz.1 a ha)
+    · next hle =>
+      refine List.pairwise_cons.mpr ⟨?_, ih hz.2⟩
+      intro a ha
+      rcases (mem_insertByKey x a t).mp ha with rfl | ha
+      · omega
+      · exact hz.1 a ha
+
+theorem sorted_sortByKey {ν : Type} (l : List (Nat × ν)) : (sortByKey l).Pairwise (fun a b => a.1 ≤ b.1) := by
+  induction l with
+  | nil => simp [sortByKey]
+  | cons z t ih => simp only [sortByKey, List.foldr_cons] at ih ⊢; exact sorted_insertByKey z _ ih
+
+/-- ascending + pairwise distinct keys = strictly ascending -/
+theorem strict_of_sorted_distinct {ν : Type} (l : List (Nat × ν))
+    (h1 : l.Pairwise (fun a b => a.1 ≤ b.1)) (h2 : l.Pairwise (fun a b => a.1 ≠ b.1)) :
+    KeysSorted (fun (x y : Nat) => decide (x < y)) l := by
+  unfold KeysSorted
+  have := List.Pairwise.and h1 h2
+  refine List.Pairwise.imp ?_ this
+  intro a b hab; simp; omega
+
+/-- the pairwise-distinctness of keys is a property of the multiset of keys -/
+theorem distinct_sortByKey {ν : Type} (l : List (Nat × ν)) (h : (l.map (·.1)).Nodup) :
+    (sortByKey l).Pairwise (fun a b => a.1 ≠ b.1) := by
+  induction l with
+  | nil => simp [sortByKey]
+  | cons z t ih =>
+    have hz : z.1 ∉ t.map (·.1) ∧ (t.map (·.1)).Nodup := List.nodup_cons.mp h
+    simp only [sortByKey, List.foldr_cons] at ih ⊢
+    have iht := ih hz.2
+    have hnot : ∀ a ∈ List.foldr insertByKey [] t, a.1 ≠ z.1 := by
+      intro a ha
+      have : a ∈ t := (mem_sortByKey a t).mp ha
+      intro e; exact hz.1 (List.mem_map.mpr ⟨a, this, e⟩)
+    generalize List.foldr insertByKey [] t = s at iht hnot
+    induction s with
+    | nil => simp [insertByKey]
+    | cons w s ihs =>
+      simp only [insertByKey]
+      have hw := List.pairwise_cons.mp iht
+      split
+      · refine List.pairwise_cons.mpr ⟨?_, iht⟩
+        intro a ha; exact fun e => hnot a ha e.symm
+      · refine List.pairwise_cons.mpr ⟨?_, ihs hw.2 (fun a ha => hnot a (by simp [ha]))⟩
+        intro a ha
+        rcases (mem_insertByKey z a s).mp ha with rfl | ha
+        · exact hnot w (by simp)
+        · exact hw.1 a ha
+
+-- ------------------------------------------------------ targets of diff --
+
+/-- the map a target belongs to is `sectionOf`; the sections of `diff` other than the one
+    computed for a map never address that map -/
+theorem sec_removedL (ty : LType) (a b : St) (keys : Target → Option Nat) :
+    ∀ c ∈ diffRemovedL ty a b keys, ∃ k, tgt c = some (listenerTarget ty k) := by
+  intro c hc
+  simp only [diffRemovedL, List.mem_flatMap] at hc
+  obtain ⟨k, _, hc⟩ := hc
+  simp only [List.mem_append, List.mem_cons, List.not_mem_nil, or_false] at hc
+  rcases hc with hc | rfl
+  · split at hc
+    · simp at hc; subst hc; exact ⟨k, rfl⟩
+    · simp at hc
+  · exact ⟨k, rfl⟩
+
+theorem sec_of_listenerTarget (ty : LType) (k : Nat) :
+    sectionOf (listenerTarget ty k) = match ty with | .http => 0 | .https => 1 | .tcp => 2 | .udp => 3 := by
+  cases ty <;> rfl
+
+theorem addListenerCmd_sec (ty : LType) (v : Val) : ∀ c ∈ addListenerCmd ty v, ∃ t, tgt c = some t ∧ sectionOf t ≤ 3 := by
+  intro c hc
+  cases v <;> simp [addListenerCmd] at hc
+  · subst hc; cases ty <;> exact ⟨_, rfl, by simp [sectionOf]⟩
+  · subst hc; exact ⟨_, rfl, by simp [sectionOf]⟩
+  · subst hc; exact ⟨_, rfl, by simp [sectionOf]⟩
+
+theorem listener_cmds_sec (ty : LType) (a b : St) (keys : Target → Option Nat) :
+    ∀ c ∈ diffRemovedL ty a b keys ++ diffAddedL ty a b keys ++ diffCommonL ty a b keys ++ diffReactivate ty a b keys,
+      ∃ t, tgt c = some t ∧ sectionOf t ≤ 3 := by
+  intro c hc
+  have hl : ∀ k, sectionOf (listenerTarget ty k) ≤ 3 := by intro k; cases ty <;> simp [listenerTarget, sectionOf]
+  simp only [List.mem_append] at hc
+  rcases hc with ((hc | hc) | hc) | hc
+  · obtain ⟨k, hk⟩ := sec_removedL ty a b keys c hc
+    exact ⟨_, hk, hl k⟩
+  · simp only [diffAddedL, List.mem_flatMap] at hc
+    obtain ⟨k, _, hc⟩ := hc
+    split at hc
+    · simp only [List.mem_append] at hc
+      rcases hc with hc | hc
+      · exact addListenerCmd_sec ty _ c hc
+      · split at hc
+        · simp at hc; subst hc; exact ⟨_, rfl, hl k⟩
+        · simp at hc
+    · simp at hc
+  · simp only [diffCommonL, List.mem_flatMap] at hc
+    obtain ⟨k, _, hc⟩ := hc
+    split at hc
+    · simp only [List.mem_append] at hc
+      rcases hc with hc | hc
+      · split at hc
+        · simp only [List.mem_append, List.mem_cons, List.not_mem_nil, or_false] at hc
+          rcases hc with (rfl | hc) | hc
+          · exact ⟨_, rfl, hl k⟩
+          · exact addListenerCmd_sec ty _ c hc
+          · split at hc
+            · simp at hc; subst hc; exact ⟨_, rfl, hl k⟩
+            · simp at hc
+        · simp at hc
+      · split at hc
+        · simp at hc; subst hc; exact ⟨_, rfl, hl k⟩
+        · simp at hc
+    · simp at hc
+  · simp only [diffReactivate, List.mem_flatMap] at hc
+    obtain ⟨k, _, hc⟩ := hc
+    split at hc
+    · split at hc
+      · simp at hc; subst hc; exact ⟨_, rfl, hl _⟩
+      · simp at hc
+    · split at hc
+      · simp at hc; subst hc; exact ⟨_, rfl, hl _⟩
+      · simp at hc
+    · simp at hc
+
+theorem foldT_skip_sec (env : Env) (t : Target) (v : Option Val) (cs : List Cmd)
+    (h : ∀ c ∈ cs, ∃ t', tgt c = some t' ∧ sectionOf t' ≠ sectionOf t) : foldT env t v cs = v := by
+  apply foldT_skip
+  intro c hc e
+  obtain ⟨t', h1, h2⟩ := h c hc
+  rw [h1] at e; injection e with e; subst e; exact h2 rfl
+
+theorem sec_clusters (a b : St) : ∀ c ∈ diffClusters a b, ∃ t, tgt c = some t ∧ sectionOf t = 4 := by
+  intro c hc
+  simp only [diffClusters, List.mem_flatMap] at hc
+  obtain ⟨r, _, hc⟩ := hc
+  split at hc
+  · split at hc
+    · simp at hc; subst hc; exact ⟨_, rfl, rfl⟩
+    · simp at hc
+  · split at hc
+    · simp at hc; subst hc; exact ⟨_, rfl, rfl⟩
+    · simp at hc
+  · simp at hc; subst hc; exact ⟨_, rfl, rfl⟩
+
+theorem sec_backends (a b : St) : ∀ c ∈ diffBackends a b, ∃ t, tgt c = some t ∧ sectionOf t = 10 := by
+  intro c hc
+  simp only [diffBackends, List.mem_flatMap] at hc
+  obtain ⟨r, _, hc⟩ := hc
+  split at hc <;> simp only [List.mem_append, List.mem_map, Option.mem_toList] at hc
+  · obtain ⟨x, _, rfl⟩ := hc; exact ⟨_, rfl, rfl⟩
+  · obtain ⟨x, _, rfl⟩ := hc; exact ⟨_, rfl, rfl⟩
+  · rcases hc with ⟨x, _, rfl⟩ | ⟨x, _, rfl⟩ <;> exact ⟨_, rfl, rfl⟩
+
+theorem sec_fronts (a b : St) (https : Bool) :
+    ∀ c ∈ diffFronts a b https, ∃ t, tgt c = some t ∧ sectionOf t = (if https then 7 else 5) := by
+  intro c hc
+  simp only [diffFronts, List.mem_append, List.mem_map] at hc
+  rcases hc with ⟨p, _, rfl⟩ | ⟨p, _, rfl⟩ <;> cases https <;> exact ⟨_, rfl, rfl⟩
+
+theorem sec_tcpFronts (a b : St) (udp : Bool) :
+    ∀ c ∈ diffTcpFronts a b udp, ∃ t, tgt c = some t ∧ sectionOf t = (if udp then 9 else 8) := by
+  intro c hc
+  simp only [diffTcpFronts, List.mem_append, List.mem_map] at hc
+  rcases hc with ⟨p, _, rfl⟩ | ⟨p, _, rfl⟩ <;> cases udp <;> exact ⟨_, rfl, rfl⟩
+
+theorem sec_certs (a b : St) : ∀ c ∈ diffCerts a b, ∃ t, tgt c = some t ∧ sectionOf t = 6 := by
+  intro c hc
+  simp only [diffCerts, List.mem_append, List.mem_map, List.mem_flatMap] at hc
+  rcases hc with ⟨p, _, rfl⟩ | ⟨p, _, hc⟩
+  · exact ⟨_, rfl, rfl⟩
+  · split at hc
+    · simp at hc; subst hc; exact ⟨_, rfl, rfl⟩
+    · simp at hc
+
+theorem sec_listener_part (ty : LType) (a b : St) (keys : Target → Option Nat) (part : List Cmd)
+    (hp : part = diffRemovedL ty a b keys ∨ part = diffAddedL ty a b keys ∨ part = diffCommonL ty a b keys ∨
+          part = diffReactivate ty a b keys) :
+    ∀ c ∈ part, ∃ t, tgt c = some t ∧ sectionOf t ≤ 3 := by
+  intro c hc
+  apply listener_cmds_sec ty a b keys c
+  simp only [List.mem_append]
+  rcases hp with rfl | rfl | rfl | rfl <;> simp [hc]
+
+/-- seen from an entry of a map with section ≥ 4, `diff` is the section computed for that map -/
+theorem foldT_diff_nonlistener (env : Env) (a b : St) (t : Target) (v : Option Val) (h4 : 4 ≤ sectionOf t) :
+    foldT env t v (diff a b) =
+      foldT env t v (diffClusters a b ++ diffBackends a b ++ diffFronts a b false ++ diffFronts a b true ++
+        diffTcpFronts a b false ++ diffTcpFronts a b true ++ diffCerts a b) := by
+  have sk : ∀ (ty : LType) (keys : Target → Option Nat) (part : List Cmd) (w : Option Val),
+      (part = diffRemovedL ty a b keys ∨ part = diffAddedL ty a b keys ∨ part = diffCommonL ty a b keys ∨
+          part = diffReactivate ty a b keys) → foldT env t w part = w := by
+    intro ty keys part w hp
+    apply foldT_skip_sec
+    intro c hc
+    obtain ⟨t', h1, h2⟩ := sec_listener_part ty a b keys part hp c hc
+    exact ⟨t', h1, by omega⟩
+  unfold diff
+  simp only [foldT_append]
+  rw [sk .tcp isTcpL _ _ (Or.inl rfl), sk .tcp isTcpL _ _ (Or.inr (Or.inl rfl)),
+      sk .udp isUdpL _ _ (Or.inl rfl), sk .udp isUdpL _ _ (Or.inr (Or.inl rfl)),
+      sk .http isHttpL _ _ (Or.inl rfl), sk .http isHttpL _ _ (Or.inr (Or.inl rfl)),
+      sk .https isHttpsL _ _ (Or.inl rfl), sk .https isHttpsL _ _ (Or.inr (Or.inl rfl)),
+      sk .tcp isTcpL _ _ (Or.inr (Or.inr (Or.inl rfl))), sk .udp isUdpL _ _ (Or.inr (Or.inr (Or.inl rfl))),
+      sk .http isHttpL _ _ (Or.inr (Or.inr (Or.inl rfl))), sk .https isHttpsL _ _ (Or.inr (Or.inr (Or.inl rfl))),
+      sk .tcp isTcpL _ _ (Or.inr (Or.inr (Or.inr rfl))), sk .udp isUdpL _ _ (Or.inr (Or.inr (Or.inr rfl)))]
+
+theorem mem_of_look (s : St) (t : Target) (v : Val) (h : look s t = some v) : (t, v) ∈ s := by
+  rw [look_eq_find] at h
+  cases hf : s.find? (fun e => decide (e.1 = t)) with
+  | none => simp [hf] at h
+  | some e =>
+    have hm := List.mem_of_find?_eq_some hf
+    have hk : e.1 = t := by simpa using List.find?_some hf
+    simp [hf] at h
+    obtain ⟨t', v'⟩ := e
+    simp at hk h; subst hk; subst h; exact hm
+
+theorem look_of_mem (s : St) (hnd : (s.map (·.1)).Nodup) (t : Target) (v : Val) (h : (t, v) ∈ s) :
+    look s t = some v := by
+  induction s with
+  | nil => simp at h
+  | cons e s ih =>
+    have hz : e.1 ∉ s.map (·.1) ∧ (s.map (·.1)).Nodup := List.nodup_cons.mp hnd
+    rw [look_eq_find]
+    rcases List.mem_cons.mp h with rfl | h
+    · simp [List.find?_cons]
+    · have hne : e.1 ≠ t := by
+        intro e'; apply hz.1; rw [e']; exact List.mem_map.mpr ⟨(t, v), h, rfl⟩
+      simp only [List.find?_cons, hne, decide_false]
+      rw [← look_eq_find]; exact ih hz.2 h
+
+def clusterPair : Target × Val → Option (Nat × Cluster)
+  | (.cluster id, .cluster c) => some (id, c)
+  | _ => none
+
+theorem clustersOf_eq (s : St) : clustersOf s = sortByKey (s.filterMap clusterPair) := by
+  unfold clustersOf
+  congr 1
+
+theorem mem_clusterPairs (s : St) (id : Nat) (c : Cluster) :
+    (id, c) ∈ s.filterMap clusterPair ↔ (Target.cluster id, Val.cluster c) ∈ s := by
+  simp only [List.mem_filterMap]
+  constructor
+  · rintro ⟨e, he, h⟩
+    obtain ⟨t, v⟩ := e
+    cases t <;> cases v <;> simp [clusterPair] at h
+    obtain ⟨rfl, rfl⟩ := h; exact he
+  · intro h; exact ⟨_, h, rfl⟩
+
+theorem nodup_clusterPairs (s : St) (hnd : (s.map (·.1)).Nodup) : ((s.filterMap clusterPair).map (·.1)).Nodup := by
+  induction s with
+  | nil => simp
+  | cons e s ih =>
+    have hz : e.1 ∉ s.map (·.1) ∧ (s.map (·.1)).Nodup := List.nodup_cons.mp hnd
+    simp only [List.filterMap_cons]
+    cases hp : clusterPair e with
+    | none => exact ih hz.2
+    | some p =>
+      simp only [List.map_cons]
+      refine List.nodup_cons.mpr ⟨?_, ih hz.2⟩
+      intro hin
+      obtain ⟨q, hq, hqe⟩ := List.mem_map.mp hin
+      obtain ⟨t, v⟩ := e
+      cases t <;> cases v <;> simp [clusterPair] at hp
+      subst hp
+      obtain ⟨qid, qc⟩ := q
+      simp at hqe; subst hqe
+      have := (mem_clusterPairs s _ qc).mp hq
+      exact hz.1 (List.mem_map.mpr ⟨_, this, rfl⟩)
+
+theorem clustersOf_spec (s : St) (hnd : (s.map (·.1)).Nodup) :
+    KeysSorted (fun (x y : Nat) => decide (x < y)) (clustersOf s) ∧
+    ∀ id c, (id, c) ∈ clustersOf s ↔ look s (.cluster id) = some (.cluster c) := by
+  rw [clustersOf_eq]
+  refine ⟨strict_of_sorted_distinct _ (sorted_sortByKey _) (distinct_sortByKey _ (nodup_clusterPairs s hnd)), ?_⟩
+  intro id c
+  rw [mem_sortByKey, mem_clusterPairs]
+  exact ⟨look_of_mem s hnd _ _, mem_of_look s _ _⟩
+
+/-- a command applied repeatedly: all the elements of `L` that produce a command for `t` produce
+    the same command `c0`, whose effect on the value is idempotent -/
+theorem foldT_flatMap_const {α : Type} (env : Env) (t : Target) (w : Option Val) (c0 : Cmd)
+    (ht : tgt c0 = some t) (h2 : (loc env c0 w).1 = w) (g : α → List Cmd) (P : α → Prop) (L : List α)
+    (hskip : ∀ x ∈ L, ¬ P x → ∀ c ∈ g x, tgt c ≠ some t) (hhit : ∀ x ∈ L, P x → g x = [c0]) :
+    foldT env t w (L.flatMap g) = w ∧
+    ∀ v0, (loc env c0 v0).1 = w → (∃ x ∈ L, P x) → foldT env t v0 (L.flatMap g) = w := by
+  induction L with
+  | nil => exact ⟨rfl, fun v0 _ h => by simp at h⟩
+  | cons x L ih =>
+    have ihL := ih (fun y hy => hskip y (by simp [hy])) (fun y hy => hhit y (by simp [hy]))
+    by_cases hp : P x
+    · have hg := hhit x (by simp) hp
+      refine ⟨?_, ?_⟩
+      · simp only [List.flatMap_cons, foldT_append, hg]
+        simp only [foldT, List.foldl_cons, List.foldl_nil, ht, if_true, h2]
+        exact ihL.1
+      · intro v0 h1 _
+        simp only [List.flatMap_cons, foldT_append, hg]
+        simp only [foldT, List.foldl_cons, List.foldl_nil, ht, if_true, h1]
+        exact ihL.1
+    · have hs := hskip x (by simp) hp
+      refine ⟨?_, ?_⟩
+      · simp only [List.flatMap_cons, foldT_append, foldT_skip env t _ _ hs]; exact ihL.1
+      · intro v0 h1 hex
+        simp only [List.flatMap_cons, foldT_append, foldT_skip env t _ _ hs]
+        apply ihL.2 v0 h1
+        obtain ⟨y, hy, hpy⟩ := hex
+        rcases List.mem_cons.mp hy with rfl | hy
+        · exact absurd hpy hp
+        · exact ⟨y, hy, hpy⟩
+
+/-- the commands `diffClusters` derives from one `diff_map` result -/
+def clusterCmds (b : St) (r : Nat × DiffRes) : List Cmd :=
+  match r.2 with
+  | .added | .changed =>
+    match look b (.cluster r.1) with
+    | some (.cluster c) => [Cmd.addCluster c]
+    | _ => []
+  | .removed => [Cmd.removeCluster r.1]
+
+theorem diffClusters_eq (a b : St) :
+    diffClusters a b = (diffMap (fun x y => decide (x < y)) (clustersOf a) (clustersOf b)).flatMap (clusterCmds b) := rfl
+
+theorem wf_cluster_look (env : Env) (s : St) (hs : WF env s) (id : Nat) :
+    look s (.cluster id) = none ∨
+    ∃ c, look s (.cluster id) = some (.cluster c) ∧ c.id = id ∧ (∀ h, c.hc = some h → h.valid = true) := by
+  cases h : look s (.cluster id) with
+  | none => exact Or.inl rfl
+  | some v =>
+    have := hs.2 _ (mem_of_look s _ _ h)
+    cases v <;> simp only [EntryOK] at this <;> try (exact False.elim this)
+    exact Or.inr ⟨_, rfl, this⟩
+
+theorem clusters_reach (env : Env) (A B : St) (hA : WF env A) (hB : WF env B) (id : Nat) :
+    foldT env (.cluster id) (look A (.cluster id)) (diffClusters A B) = look B (.cluster id) := by
+  have sA := clustersOf_spec A hA.1
+  have sB := clustersOf_spec B hB.1
+  have spec := fun k r => mem_diffMapAux (fun (x y : Nat) => decide (x < y)) strictTotal_nat _ (clustersOf A)
+    (clustersOf B) (Nat.le_refl _) sA.1 sB.1 k r
+  rw [diffClusters_eq]
+  -- elements with another key produce commands for another entry
+  have hskip : ∀ x ∈ diffMap (fun (x y : Nat) => decide (x < y)) (clustersOf A) (clustersOf B), ¬ x.1 = id →
+      ∀ c ∈ clusterCmds B x, tgt c ≠ some (.cluster id) := by
+    intro x hx hne c hc
+    obtain ⟨k, r⟩ := x
+    simp only [clusterCmds] at hc
+    have hk : ∀ c', look B (.cluster k) = some (.cluster c') → c'.id = k := by
+      intro c' hl
+      rcases wf_cluster_look env B hB k with h | ⟨c2, h, h2, _⟩
+      · rw [h] at hl; cases hl
+      · rw [h] at hl; injection hl with hl; injection hl with hl; subst hl; exact h2
+    cases r <;> simp only at hc
+    · split at hc
+      · next c' hl => simp at hc; subst hc; simp [tgt, hk c' hl]; exact hne
+      · simp at hc
+    · simp at hc; subst hc; simp [tgt]; exact hne
+    · split at hc
+      · next c' hl => simp at hc; subst hc; simp [tgt, hk c' hl]; exact hne
+      · simp at hc
+  rcases wf_cluster_look env A hA id with hAn | ⟨cA, hAs, _, _⟩ <;>
+  rcases wf_cluster_look env B hB id with hBn | ⟨cB, hBs, hBid, hBv⟩
+  · -- absent on both sides: no result for this key
+    rw [hAn, hBn]
+    apply foldT_flatMap_skip
+    intro x hx c hc
+    by_cases hk : x.1 = id
+    · exfalso
+      obtain ⟨k, r⟩ := x; simp at hk; subst hk
+      have := (spec k r).mp hx
+      rcases this with ⟨_, ⟨v, hv⟩, _⟩ | ⟨_, ⟨v, hv⟩, _⟩ | ⟨_, v, v', hv, _⟩
+      · rw [(sA.2 k v).mp hv] at hAn; cases hAn
+      · rw [(sB.2 k v).mp hv] at hBn; cases hBn
+      · rw [(sA.2 k v).mp hv] at hAn; cases hAn
+    · exact hskip x hx hk c hc
+  · -- only in the target: Added
+    rw [hAn, hBs]
+    have hadd : loc env (.addCluster cB) none = (some (.cluster cB), true) := by
+      simp only [loc]; cases hh : cB.hc with
+      | none => rfl
+      | some h => simp [hBv h hh]
+    have hadd2 : (loc env (.addCluster cB) (some (.cluster cB))).1 = some (.cluster cB) := by
+      simp only [loc]; cases hh : cB.hc with
+      | none => rfl
+      | some h => simp [hBv h hh]
+    refine (foldT_flatMap_const env (.cluster id) (some (.cluster cB)) (.addCluster cB) (by simp [tgt, hBid]) hadd2
+      (clusterCmds B) (fun x => x.1 = id) _ hskip ?_).2 none (by rw [hadd]) ?_
+    · intro x hx hk
+      obtain ⟨k, r⟩ := x; simp at hk; subst hk
+      have := (spec k r).mp hx
+      rcases this with ⟨_, ⟨v, hv⟩, _⟩ | ⟨hr, _, _⟩ | ⟨_, v, v', hv, _⟩
+      · rw [(sA.2 k v).mp hv] at hAn; cases hAn
+      · subst hr; simp [clusterCmds, hBs]
+      · rw [(sA.2 k v).mp hv] at hAn; cases hAn
+    · refine ⟨(id, .added), (spec id .added).mpr (Or.inr (Or.inl ⟨rfl, ⟨cB, (sB.2 id cB).mpr hBs⟩, ?_⟩)), rfl⟩
+      intro v hv; rw [(sA.2 id v).mp hv] at hAn; cases hAn
+  · -- only in the source: Removed
+    rw [hAs, hBn]
+    refine (foldT_flatMap_const env (.cluster id) none (.removeCluster id) (by simp [tgt]) (by simp [loc, removeEntry])
+      (clusterCmds B) (fun x => x.1 = id) _ hskip ?_).2 _ (by simp [loc, removeEntry]) ?_
+    · intro x hx hk
+      obtain ⟨k, r⟩ := x; simp at hk; subst hk
+      have := (spec k r).mp hx
+      rcases this with ⟨hr, _, _⟩ | ⟨_, ⟨v, hv⟩, _⟩ | ⟨_, v, v', _, hv, _⟩
+      · subst hr; simp [clusterCmds]
+      · rw [(sB.2 k v).mp hv] at hBn; cases hBn
+      · rw [(sB.2 k v').mp hv] at hBn; cases hBn
+    · refine ⟨(id, .removed), (spec id .removed).mpr (Or.inl ⟨rfl, ⟨cA, (sA.2 id cA).mpr hAs⟩, ?_⟩), rfl⟩
+      intro v hv; rw [(sB.2 id v).mp hv] at hBn; cases hBn
+  · -- on both sides
+    rw [hAs, hBs]
+    have hadd2 : ∀ w, (loc env (.addCluster cB) w).1 = some (.cluster cB) := by
+      intro w; simp only [loc]; cases hh : cB.hc with
+      | none => rfl
+      | some h => simp [hBv h hh]
+    by_cases heq : cA = cB
+    · subst heq
+      apply foldT_flatMap_skip
+      intro x hx c hc
+      by_cases hk : x.1 = id
+      · exfalso
+        obtain ⟨k, r⟩ := x; simp at hk; subst hk
+        have := (spec k r).mp hx
+        rcases this with ⟨_, _, hn⟩ | ⟨_, _, hn⟩ | ⟨_, v, v', hv, hv', hne⟩
+        · exact hn cA ((sB.2 k cA).mpr hBs)
+        · exact hn cA ((sA.2 k cA).mpr hAs)
+        · have e1 := (sA.2 k v).mp hv; have e2 := (sB.2 k v').mp hv'
+          rw [hAs] at e1; rw [hBs] at e2
+          injection e1 with e1; injection e1 with e1; injection e2 with e2; injection e2 with e2
+          exact hne (e1 ▸ e2 ▸ rfl)
+      · exact hskip x hx hk c hc
+    · refine (foldT_flatMap_const env (.cluster id) (some (.cluster cB)) (.addCluster cB) (by simp [tgt, hBid]) (hadd2 _)
+        (clusterCmds B) (fun x => x.1 = id) _ hskip ?_).2 _ (hadd2 _) ?_
+      · intro x hx hk
+        obtain ⟨k, r⟩ := x; simp at hk; subst hk
+        have := (spec k r).mp hx
+        rcases this with ⟨_, _, hn⟩ | ⟨_, _, hn⟩ | ⟨hr, _⟩
+        · exact absurd ((sB.2 k cB).mpr hBs) (hn cB)
+        · exact absurd ((sA.2 k cA).mpr hAs) (hn cA)
+        · subst hr; simp [clusterCmds, hBs]
+      · exact ⟨(id, .changed), (spec id .changed).mpr (Or.inr (Or.inr ⟨rfl, cA, cB, (sA.2 id cA).mpr hAs,
+          (sB.2 id cB).mpr hBs, heq⟩)), rfl⟩
+
+def frontT (https : Bool) (k : FKey) : Target := if https then .httpsF k else .httpF k
+def rmFrontCmd (https : Bool) (f : HttpFront) : Cmd := if https then .removeHttpsF (toReq f) else .removeHttpF (toReq f)
+def addFrontCmd (https : Bool) (f : HttpFront) : Cmd := if https then .addHttpsF (toReq f) else .addHttpF (toReq f)
+
+theorem diffFronts_eq (a b : St) (https : Bool) :
+    diffFronts a b https =
+      ((frontsOf a https).filter (fun p => !(frontsOf b https).contains p)).flatMap (fun p => [rmFrontCmd https p.2]) ++
+      ((frontsOf b https).filter (fun p => !(frontsOf a https).contains p)).flatMap (fun p => [addFrontCmd https p.2]) := by
+  have hm : ∀ {α : Type} (f : α → Cmd) (l : List α), l.flatMap (fun p => [f p]) = l.map f := by
+    intro α f l; induction l with
+    | nil => rfl
+    | cons x t ih => simp [List.flatMap_cons, ih]
+  cases https <;> simp [diffFronts, rmFrontCmd, addFrontCmd, hm]
+
+theorem mem_frontsOf (env : Env) (s : St) (hs : WF env s) (https : Bool) (k : FKey) (f : HttpFront) :
+    (k, f) ∈ frontsOf s https ↔ look s (frontT https k) = some (.front f) := by
+  simp only [frontsOf, List.mem_filterMap]
+  constructor
+  · rintro ⟨e, he, h⟩
+    obtain ⟨t, v⟩ := e
+    cases t <;> cases v <;> cases https <;> simp at h
+    all_goals (obtain ⟨rfl, rfl⟩ := h; exact look_of_mem s hs.1 _ _ he)
+  · intro h
+    have := mem_of_look s _ _ h
+    cases https
+    · exact ⟨_, this, by simp [frontT]⟩
+    · exact ⟨_, this, by simp [frontT]⟩
+
+theorem wf_front_look (env : Env) (s : St) (hs : WF env s) (https : Bool) (k : FKey) :
+    look s (frontT https k) = none ∨
+    ∃ f, look s (frontT https k) = some (.front f) ∧ fkey (toReq f) = k ∧ toFrontend (toReq f) = some f := by
+  cases h : look s (frontT https k) with
+  | none => exact Or.inl rfl
+  | some v =>
+    have := hs.2 _ (mem_of_look s _ _ h)
+    cases https <;> cases v <;> simp only [frontT, EntryOK, if_true, if_false, Bool.false_eq_true] at this <;>
+      try (exact False.elim this)
+    all_goals exact Or.inr ⟨_, rfl, this⟩
+
+theorem fronts_reach (env : Env) (A B : St) (hA : WF env A) (hB : WF env B) (https : Bool) (k : FKey) :
+    foldT env (frontT https k) (look A (frontT https k)) (diffFronts A B https) = look B (frontT https k) := by
+  have mA := mem_frontsOf env A hA https
+  have mB := mem_frontsOf env B hB https
+  have keyA : ∀ p ∈ frontsOf A https, fkey (toReq p.2) = p.1 := by
+    intro p hp
+    rcases wf_front_look env A hA https p.1 with h | ⟨f, h, h1, _⟩
+    · rw [(mA p.1 p.2).mp hp] at h; cases h
+    · rw [(mA p.1 p.2).mp hp] at h; injection h with h; injection h with h; subst h; exact h1
+  have keyB : ∀ p ∈ frontsOf B https, fkey (toReq p.2) = p.1 := by
+    intro p hp
+    rcases wf_front_look env B hB https p.1 with h | ⟨f, h, h1, _⟩
+    · rw [(mB p.1 p.2).mp hp] at h; cases h
+    · rw [(mB p.1 p.2).mp hp] at h; injection h with h; injection h with h; subst h; exact h1
+  have tgtRm : ∀ f, tgt (rmFrontCmd https f) = some (frontT https (fkey (toReq f))) := by
+    intro f; cases https <;> rfl
+  have tgtAdd : ∀ f, tgt (addFrontCmd https f) = some (frontT https (fkey (toReq f))) := by
+    intro f; cases https <;> rfl
+  have injT : ∀ k1 k2, frontT https k1 = frontT https k2 → k1 = k2 := by
+    intro k1 k2 h; cases https <;> simpa [frontT] using h
+  have locRm : ∀ f w, loc env (rmFrontCmd https f) w = removeEntry w := by
+    intro f w; cases https <;> rfl
+  have locAdd : ∀ f w, loc env (addFrontCmd https f) w = addFront (toReq f) w := by
+    intro f w; cases https <;> rfl
+  rw [diffFronts_eq, foldT_append]
+  have skipRm : ∀ x ∈ (frontsOf A https).filter (fun p => !(frontsOf B https).contains p), ¬ x.1 = k →
+      ∀ c ∈ [rmFrontCmd https x.2], tgt c ≠ some (frontT https k) := by
+    intro x hx hne c hc
+    simp at hc; subst hc
+    rw [tgtRm, keyA x (List.mem_filter.mp hx).1]
+    intro h; injection h with h; exact hne (injT _ _ h)
+  have skipAdd : ∀ x ∈ (frontsOf B https).filter (fun p => !(frontsOf A https).contains p), ¬ x.1 = k →
+      ∀ c ∈ [addFrontCmd https x.2], tgt c ≠ some (frontT https k) := by
+    intro x hx hne c hc
+    simp at hc; subst hc
+    rw [tgtAdd, keyB x (List.mem_filter.mp hx).1]
+    intro h; injection h with h; exact hne (injT _ _ h)
+  -- the removed part maps `look A` to: none if the entry must go or change, itself otherwise
+  have hRemoved : foldT env (frontT https k) (look A (frontT https k))
+      (((frontsOf A https).filter (fun p => !(frontsOf B https).contains p)).flatMap (fun p => [rmFrontCmd https p.2])) =
+      if look A (frontT https k) = look B (frontT https k) then look A (frontT https k) else none := by
+    rcases wf_front_look env A hA https k with hAn | ⟨fA, hAs, hkA, _⟩
+    · rw [hAn]
+      have : foldT env (frontT https k) none
+          (((frontsOf A https).filter (fun p => !(frontsOf B https).contains p)).flatMap (fun p => [rmFrontCmd https p.2])) = none := by
+        apply foldT_flatMap_skip
+        intro x hx c hc
+        by_cases hk : x.1 = k
+        · exfalso
+          have := (mA x.1 x.2).mp (List.mem_filter.mp hx).1
+          rw [hk, hAn] at this; cases this
+        · exact skipRm x hx hk c hc
+      rw [this]; split <;> rfl
+    · by_cases heq : look A (frontT https k) = look B (frontT https k)
+      · rw [if_pos heq]
+        apply foldT_flatMap_skip
+        intro x hx c hc
+        by_cases hk : x.1 = k
+        · exfalso
+          obtain ⟨k', f'⟩ := x; simp at hk; subst hk
+          have h1 := (mA k' f').mp (List.mem_filter.mp hx).1
+          have h2 : (k', f') ∈ frontsOf B https := (mB k' f').mpr (by rw [← heq]; exact h1)
+          have := (List.mem_filter.mp hx).2
+          simp [h2] at this
+        · exact skipRm x hx hk c hc
+      · rw [if_neg heq, hAs]
+        refine (foldT_flatMap_const env (frontT https k) none (rmFrontCmd https fA) (by rw [tgtRm, hkA])
+          (by rw [locRm]; rfl) _ (fun x => x.1 = k) _ skipRm ?_).2 _ (by rw [locRm]; rfl) ?_
+        · intro x hx hk
+          obtain ⟨k', f'⟩ := x; simp at hk; subst hk
+          have h1 := (mA k' f').mp (List.mem_filter.mp hx).1
+          rw [hAs] at h1; injection h1 with h1; injection h1 with h1; subst h1; rfl
+        · refine ⟨(k, fA), List.mem_filter.mpr ⟨(mA k fA).mpr hAs, ?_⟩, rfl⟩
+          simp only [Bool.not_eq_true', List.contains_eq_mem, decide_eq_false_iff_not]
+          intro hin
+          exact heq (by rw [hAs, (mB k fA).mp hin])
+  rw [hRemoved]
+  -- the added part
+  rcases wf_front_look env B hB https k with hBn | ⟨fB, hBs, hkB, hfB⟩
+  · have : ∀ w, foldT env (frontT https k) w
+        (((frontsOf B https).filter (fun p => !(frontsOf A https).contains p)).flatMap (fun p => [addFrontCmd https p.2])) = w := by
+      intro w
+      apply foldT_flatMap_skip
+      intro x hx c hc
+      by_cases hk : x.1 = k
+      · exfalso
+        have := (mB x.1 x.2).mp (List.mem_filter.mp hx).1
+        rw [hk, hBn] at this; cases this
+      · exact skipAdd x hx hk c hc
+    rw [this, hBn]
+    split
+    · next h => exact h
+    · rfl
+  · by_cases heq : look A (frontT https k) = look B (frontT https k)
+    · rw [if_pos heq, heq]
+      apply foldT_flatMap_skip
+      intro x hx c hc
+      by_cases hk : x.1 = k
+      · exfalso
+        obtain ⟨k', f'⟩ := x; simp at hk; subst hk
+        have h1 := (mB k' f').mp (List.mem_filter.mp hx).1
+        have h2 : (k', f') ∈ frontsOf A https := (mA k' f').mpr (by rw [heq]; exact h1)
+        have := (List.mem_filter.mp hx).2
+        simp [h2] at this
+      · exact skipAdd x hx hk c hc
+    · rw [if_neg heq, hBs]
+      refine (foldT_flatMap_const env (frontT https k) (some (.front fB)) (addFrontCmd https fB) (by rw [tgtAdd, hkB])
+        (by rw [locAdd]; rfl) _ (fun x => x.1 = k) _ skipAdd ?_).2 _ (by rw [locAdd]; simp [addFront, hfB]) ?_
+      · intro x hx hk
+        obtain ⟨k', f'⟩ := x; simp at hk; subst hk
+        have h1 := (mB k' f').mp (List.mem_filter.mp hx).1
+        rw [hBs] at h1; injection h1 with h1; injection h1 with h1; subst h1; rfl
+      · refine ⟨(k, fB), List.mem_filter.mpr ⟨(mB k fB).mpr hBs, ?_⟩, rfl⟩
+        simp only [Bool.not_eq_true', List.contains_eq_mem, decide_eq_false_iff_not]
+        intro hin
+        exact heq (by rw [hBs, (mA k fB).mp hin])
+
 end Sozu.State
